@@ -26,6 +26,33 @@ MALFORMED_OPAQUE = [b'diag_log "x\x00y"', b'diag_log "\xc3\x28\xff"', b"1 \x00 2
 ENDLESS = Prog(E(Bin("do", Un("while", Code(E(B(True)))), Code(E(Bin("do", Un("while", Code(E(B(True)))), Code()))))))
 
 
+# ---------------------------------------------------------------- calls that run several scripts (spawn)
+def _spawn(*stmts):
+    return E(Bin("spawn", Arr(), Code(*stmts)))
+
+
+_FAIL = Asg("bad", Bin("select", Arr(N(1), N(2)), N(7)))          # unrecovered runtime error in whichever script runs it
+_SLEEPER = _spawn(E(Un("sleep", N(1))), Asg("late", N(1)))
+_BUSY = _spawn(E(Bin("do", Bin("to", Bin("from", Un("for", S("_k")), N(1)), N(300)), Code(Asg("w", Var("_k"))))), Asg("late", N(2)))
+_LONG = E(Bin("do", Bin("to", Bin("from", Un("for", S("_i")), N(1)), N(2000)), Code(Asg("z", Var("_i")))))
+# (name, program, class): a script of the call fails without a handler -> the call must report -6, whichever scripts are
+# beside it in the scheduler list and whenever they finish; the controls must report 0
+MULTI = [
+    ("sleeping-sibling-first", Prog(_SLEEPER, _spawn(_FAIL), E(N(0))), "err"),
+    ("sleeping-sibling-last", Prog(_spawn(_FAIL), _SLEEPER, E(N(0))), "err"),
+    ("long-running-caller", Prog(_spawn(_FAIL), _LONG, E(N(0))), "err"),
+    ("busy-sibling-finishes-later", Prog(_spawn(_FAIL), _BUSY, E(N(0))), "err"),
+    ("busy-sibling-first", Prog(_BUSY, _spawn(_FAIL), E(N(0))), "err"),
+    ("failing-last-of-three", Prog(_SLEEPER, _BUSY, _spawn(E(Un("diag_log", N(7))), _FAIL, E(Un("diag_log", N(8)))), _LONG, E(N(0))), "err"),
+    ("two-failing", Prog(_spawn(_FAIL), _spawn(E(Un("sleep", N(1))), _FAIL), E(N(0))), "err"),
+    ("failing-after-sleep", Prog(_spawn(E(Un("sleep", N(1))), _FAIL), _BUSY, E(N(0))), "err"),
+    ("caller-fails-siblings-alive", Prog(_SLEEPER, _BUSY, _FAIL, E(N(0))), "err"),
+    ("plain-spawned-failure", Prog(_spawn(_FAIL), E(N(0))), "err"),
+    ("control-siblings-only", Prog(_SLEEPER, _BUSY, _LONG, E(N(0))), "ok"),
+    ("control-handled-in-spawn", Prog(_spawn(E(Bin("except__", Code(_FAIL), Code(Asg("h", N(1)))))), _SLEEPER, E(N(0))), "ok"),
+]
+
+
 def gen_prog(g, rng, kind):
     """program tokens of the wanted kind: ok | err | set | get"""
     if kind == "set":
@@ -111,6 +138,9 @@ def build_history(rng, g, thorough):
                 h.add(op="K", h=str(i), cd=cd, ty=ty, prog=ENDLESS, cls="endless")
             elif r < 0.40:
                 h.add(op="K", h=str(i), cd=cd, ty=ty, text=b"", cls="ok", prog="0")
+            elif r < 0.47 and ty == "s" and not lim[i]:
+                nm, pr_, cl_ = rng.choice(MULTI)
+                h.add(op="K", h=str(i), cd=cd, ty=ty, prog=pr_, cls=cl_, multi=nm)
             else:
                 kind = rng.choice(["gen", "gen", "safe", "err", "faulty", "set", "get"])
                 if lim[i] and kind in ("gen", "err", "faulty"):
@@ -162,6 +192,11 @@ def main(replay=None):
         for t in ASM_FINDING:
             h = Hist(); h.add(op="C", user=5, mr=0); h.add(op="K", h="0", cd=1, ty="a", text=t, cls="asm-finding"); h.add(op="S", h="0")
             hists.append(("asm-finding", h))
+        for nm, pr_, cl_ in MULTI:
+            h = Hist(); h.add(op="C", user=9, mr=0)
+            h.add(op="K", h="0", cd=21, ty="s", prog=pr_, cls=cl_, multi=nm); h.add(op="S", h="0")
+            h.add(op="K", h="0", cd=22, ty="s", prog=Prog(E(Un("diag_log", Arr(Var("late"), Var("z"))))), cls="run"); h.add(op="D", h="0")
+            hists.append(("multi:" + nm, h))
         for _ in range(2500 if thorough else 260):
             hists.append(("random", build_history(rng, g, thorough)))
 
@@ -335,6 +370,12 @@ def main(replay=None):
                             why = why or ("a diagnostic of this call reached the callback with user data %s / call data %s instead of %s / %s" % (r[0], r[1], u, c))
                     if ret == -6 and not any(int(r[2]) <= 1 for r in recs):
                         why = why or "the call failed (-6) without an error-level diagnostic reaching the callback"
+                    # a stack trace / max-runtime diagnostic (the only fatal-level messages of a run) is logged exactly when a
+                    # runtime error was not recovered by any handler resp. the run was cut: such a call did not run to completion
+                    # without a runtime error, whichever script of the call it was and whatever the other scripts did afterwards
+                    if o["op"] == "K" and ret == 0 and any(int(r[2]) == 0 for r in recs):
+                        why = why or ("sqfvm_call returned 0 although the callback received the fatal stack trace of an unrecovered runtime error "
+                                      "for this very call (0 is documented for `executed to completion without a runtime error`)")
                     if o["op"] == "P" and ret == 0:
                         pass
             if why:
